@@ -128,13 +128,14 @@ def run(chk, args):
     # ProductTrace takes P evaluated alone as given.  On meshes of more than 100 points the compiled kernel is
     # re-entered slice by slice; there P alone (same parameters, same mesh, same effective-radius mode) is in turn
     # validated against its per-mesh-point evaluations by MeanTrace, so that P@S is tied to single-particle values.
-    bigs = [e for e in evs if by[e["tid"]].get("bigmesh") and not by[e["tid"]].get("probe") and not e["refused"]]
+    bigs = [e for e in evs if (by[e["tid"]].get("bigmesh") or float(e["cutoff"]) > 0.0) and not by[e["tid"]].get("probe")
+            and not e["refused"]]
     if bigs and not args.replay:
         import builtin_mean
         sc2 = []
         for e in bigs:
             pp = {k: v for k, v in e["p_pars"].items() if not k.startswith("up_") and not k.endswith(("_M0", "_mtheta", "_mphi"))}
-            sc2.append({"tid": 200000 + e["tid"], "model": e["P"], "pars": dict(pp, scale=1.0, background=0.0), "cutoff": 0.0,
+            sc2.append({"tid": 200000 + e["tid"], "model": e["P"], "pars": dict(pp, scale=1.0, background=0.0), "cutoff": float(e["cutoff"]),
                         "dim": e["dim"], "mode": e["ermode"]})
         builtin_mean.run(chk, PROP, sc2, "P-alone-on-large-mesh")
     chk.cov["rule"] = (
